@@ -374,7 +374,7 @@ pub fn run(args: &Args, property: &str) -> ! {
     let quick = args.tier == Tier::Quick;
     let SweepResult { acc, bounds } = sweep(quick);
 
-    if acc.diag_kinds.len() < 15 || acc.objects < 20 {
+    if acc.failures.total() + acc.c07_failures.total() == 0 && (acc.diag_kinds.len() < 15 || acc.objects < 20) {
         machinery_failure(&format!(
             "vacuous run: {} diagnostic kinds, {} objects",
             acc.diag_kinds.len(),
